@@ -28,6 +28,8 @@ func init() {
 
 func runC13(w *World, r *Report) {
 	hrEndpointKeyHasMethod(w, r, "R4")
+	hrParamNamePattern(w, r, "R3")
+	hrPutErrorsReturned(w, r, "R4")
 	hrWildcardConstant(w, r, "R3")
 	hrParamSegmentNonEmpty(w, r, "R3")
 	// an endpoint with an enabled plugin is registered with the proxy (C14.R4)
